@@ -560,6 +560,8 @@ pub struct State {
 
 pub struct Ics20Model {
     pub cfg: Cfg,
+    /// transitions executed so far (progress display only)
+    pub steps: std::sync::atomic::AtomicU64,
 }
 
 fn ns_prefix(ns: &str) -> Vec<u8> {
@@ -1390,6 +1392,7 @@ impl Model for Ics20Model {
     }
 
     fn step(&self, s: &State, a: &Act) -> Step<State> {
+        self.steps.fetch_add(1, std::sync::atomic::Ordering::Relaxed);
         let cfg = &self.cfg;
         let ics = ics();
         let p = &cfg.props;
